@@ -78,6 +78,8 @@ def drive(rec):
             pass
     try:
         uc = cr.unit_cell_atoms()
+        import numpy as _np
+        uc_first = {k: _np.array(uc[k], copy=True) for k in ("frac_pos", "cart_pos", "element", "asym_atom")}
         rows, _, o = xtal.project_rows(uc, n, None, rec["u"])
         off |= o
         t["ucpts"] = [{"p": r["p"], "z": r["z"]} for r in rows]
@@ -137,6 +139,10 @@ def drive(rec):
         after = cr.unit_cell_molecules()
         if len(after) != len(before) or any(not np.array_equal(np.asarray(m.positions), b) for m, b in zip(after, before)):
             t["exc_unique"] = "MoleculesMovedByLaterCalls"
+        # ... and the unit-cell atoms it hands out are still the ones it handed out before the molecules were asked for
+        uc2 = cr.unit_cell_atoms()
+        if any(not np.array_equal(np.asarray(uc2[k]), v) for k, v in uc_first.items()):
+            t["exc_unique"] = "UnitCellAtomsChangedByLaterCalls"
     except Exception as e:
         t["exc_unique"] = type(e).__name__
     t["off"] = bool(off)
